@@ -15,7 +15,7 @@ RULE = (
     "resolution); db.GetDefaultCategory(u) equals the table's entry; X(c) == X(default value, default unit, c) for "
     "Scalar/FractionScalar (Array: empty container, FixedArray: unit and category); eval(repr(Scalar)) == Scalar for "
     "finite values, also for a subclass of Scalar; a unit with its own default category registered at run time in every "
-    "order relative to the categories and to early construction attempts ends with all forms equal. Values are Hypothesis-generated per sweep. Non-trivial = unit whose default category comes from a "
+    "order relative to the categories and to early construction attempts ends with all forms equal. Values are Hypothesis-generated per sweep. Scalars built from numbers that are not floats (Fraction, Decimal, 2**53+1, bool, numpy scalars) agree across all forms with the Scalar of float(value). Non-trivial = unit whose default category comes from a "
     "per-row default_category or differs from the quantity type name, or a category other than the default one; "
     "key = (class, form, unit, category)."
 )
@@ -144,6 +144,33 @@ class Checker:
                         ctx.record("repr_does_not_evaluate_back:numpy value", case, "eval(%r) gives %r" % (repr(sn), back))
                 except Exception as e:
                     ctx.record("repr_does_not_evaluate:numpy value:%s" % type(e).__name__, case, "eval(%r) raised %s: %s" % (repr(sn), type(e).__name__, e))
+            if c == cats[0] or c == c_table:
+                # values that are numbers but not floats: every form stores the same amount, float(value)
+                from decimal import Decimal
+                from fractions import Fraction as PyFraction
+
+                from barril.units import ObtainQuantity
+
+                q_ = ObtainQuantity(u, c)
+                for nv in (PyFraction(1, 3), Decimal("0.1"), 2**53 + 1, True, numpy.float32(0.1), numpy.int64(7)):
+                    ctx.ev()
+                    try:
+                        objs = [
+                            ("float(value)", Scalar(float(nv), u, c)),
+                            ("(v,u,c)", Scalar(nv, u, c)),
+                            ("(c,v,u)", Scalar(c, nv, u)),
+                            ("(q,v)", Scalar(q_, nv)),
+                            ("CreateWithQuantity(q,v)", Scalar.CreateWithQuantity(q_, nv)),
+                            ("CreateWithQuantity(q,value=v)", Scalar.CreateWithQuantity(q_, value=nv)),
+                            ("kw(value,unit,category)", Scalar(value=nv, unit=u, category=c)),
+                        ]
+                    except Exception as e:
+                        if core.tree_frame(e) is None:
+                            raise
+                        ctx.record("form_raises:%s:%s value" % (type(e).__name__, type(nv).__name__), case, "a Scalar form raised %s: %s for the value %r" % (type(e).__name__, str(e)[:160], nv))
+                        continue
+                    self.all_equal(objs, dict(case, value_kind=type(nv).__name__), "Scalar", with_hash=True)
+                    ctx.cls("non_float_values")
             if c != c_table:
                 ctx.nt_disjoint += 1
         # the forms that leave the category out, after every other category of the type has been used
